@@ -1,7 +1,7 @@
 (* ScanWALDirectory tallies and GetRecentWALRecords, over the record lists ParseWALFile reports. *)
 Require Import PG.Base.Bytes PG.Base.GoSlice PG.C17.Names PG.C17.Model PG.C17.SpecNames PG.C17.Spec.
 Require Import PG.C17.NamesProofs PG.C17.BlockrefsProofs PG.C17.PageProofs PG.C17.SegmentProofs.
-From Coq Require Import Sorting.Sorted.
+From Coq Require Import Sorting.Sorted Sorting.Permutation.
 
 (* ---------- association-list tallies ---------- *)
 Section TallyLemmas.
@@ -568,3 +568,70 @@ Lemma file_recs_segment e its tr t :
   d_file e = Some {| vis := enc_segment its tr; tail := t |} ->
   Forall (wf_item 24) its -> its <> [] -> blen tr < 8192 -> file_recs e = segment_model its.
 Proof. intros E W N T. unfold file_recs. rewrite E, ParseWALFile_enc by auto. reflexivity. Qed.
+
+(* ---------- the transaction list does not depend on the order in which Go ranges over txnOps ---------- *)
+Definition ltk (a b : TransactionInfo) : Prop := t_xid a < t_xid b.
+Lemma insert_txn_perm t l : Permutation (insert_txn t l) (t :: l).
+Proof.
+  induction l as [|x l IH]; cbn [insert_txn]; [reflexivity|].
+  destruct (t_xid t <=? t_xid x); [reflexivity|].
+  rewrite IH. apply perm_swap.
+Qed.
+Lemma sort_txns_permutation l : Permutation (sort_txns l) l.
+Proof.
+  induction l as [|x l IH]; cbn [sort_txns fold_right]; [reflexivity|]. fold (sort_txns l).
+  rewrite insert_txn_perm. constructor. exact IH.
+Qed.
+Lemma insert_txn_sorted t l : StronglySorted ltk l -> (forall x, In x l -> t_xid x <> t_xid t) ->
+  StronglySorted ltk (insert_txn t l).
+Proof.
+  induction l as [|z l IH]; intros S N; cbn [insert_txn].
+  - constructor; constructor.
+  - inversion S as [|? ? S' F]; subst. rewrite Forall_forall in F. destruct (t_xid t <=? t_xid z) eqn:E.
+    + assert (t_xid z <> t_xid t) by (apply N; left; reflexivity).
+      constructor; [exact S|]. rewrite Forall_forall. intros w [<-|Hw]; unfold ltk in *; [lia|]. specialize (F w Hw). lia.
+    + constructor; [apply IH; [exact S'|intros x Hx; apply N; right; exact Hx]|].
+      rewrite Forall_forall. intros w Hw.
+      apply (Permutation_in _ (insert_txn_perm t l)) in Hw. destruct Hw as [<-|Hw]; unfold ltk in *; [lia|apply F, Hw].
+Qed.
+Lemma sort_txns_sorted l : NoDup (map t_xid l) -> StronglySorted ltk (sort_txns l).
+Proof.
+  induction l as [|x l IH]; cbn [map sort_txns fold_right]; intros H; [constructor|]. fold (sort_txns l).
+  inversion H as [|? ? Hn Hr]; subst. apply insert_txn_sorted; [apply IH, Hr|].
+  intros y Hy E. apply Hn. rewrite <- E. apply in_map.
+  apply (Permutation_in _ (sort_txns_permutation l)). exact Hy.
+Qed.
+Lemma sorted_perm_unique : forall l1 l2, StronglySorted ltk l1 -> StronglySorted ltk l2 -> Permutation l1 l2 -> l1 = l2.
+Proof.
+  induction l1 as [|a l1 IH]; intros l2 S1 S2 P.
+  - apply Permutation_nil in P. subst. reflexivity.
+  - destruct l2 as [|b l2]; [apply Permutation_sym, Permutation_nil in P; discriminate|].
+    inversion S1 as [|? ? S1' F1]; subst. inversion S2 as [|? ? S2' F2]; subst.
+    rewrite Forall_forall in F1, F2.
+    assert (a = b).
+    { assert (Ha : In a (b :: l2)) by (apply (Permutation_in _ P); left; reflexivity).
+      assert (Hb : In b (a :: l1)) by (apply (Permutation_in _ (Permutation_sym P)); left; reflexivity).
+      destruct Ha as [E|Ha]; [congruence|]. destruct Hb as [E|Hb]; [congruence|].
+      specialize (F1 _ Hb). specialize (F2 _ Ha). unfold ltk in *. lia. }
+    subst b. f_equal. apply IH; auto. apply Permutation_cons_inv in P. exact P.
+Qed.
+Theorem sort_txns_perm l1 l2 : Permutation l1 l2 -> NoDup (map t_xid l1) -> sort_txns l1 = sort_txns l2.
+Proof.
+  intros P N. apply sorted_perm_unique.
+  - apply sort_txns_sorted, N.
+  - apply sort_txns_sorted. apply (Permutation_NoDup (Permutation_map t_xid P)), N.
+  - rewrite !sort_txns_permutation. exact P.
+Qed.
+
+Lemma txns_order_independent st order :
+  Permutation order (st_txnops st) -> NoDup (map fst (st_txnops st)) ->
+  sort_txns (map (mk_txn (st_txnstatus st)) order) = s_txns (summarize st).
+Proof.
+  intros P N. unfold summarize. cbn [s_txns]. apply sort_txns_perm.
+  - apply Permutation_map. exact P.
+  - rewrite map_map. cbn [mk_txn t_xid]. apply (Permutation_NoDup (Permutation_map fst (Permutation_sym P))). exact N.
+Qed.
+Lemma scan_txnops_nodup recs : NoDup (map fst (st_txnops (fold_left scan_rec recs init_state))).
+Proof.
+  rewrite scan_fold. cbn [st_txnops init_state]. rewrite txo_fold. apply (nodup_fold Z.eqb Zeqb_spec). constructor.
+Qed.
